@@ -175,7 +175,13 @@ func buildSrStream(frames []srFrame, bs, ck int, hint uint64) ([]byte, [][]byte)
 				}
 				container.WriteFrame(w, bw.Bytes(), bw.Len())
 			} else {
-				p, nb := container.BuildNoneBlock(data, cks, sum(data)^0x5A5A)
+				// wrong checksum: for the 64-bit width every other failing frame differs from the right value
+				// in the HIGH half only (a compare truncated to 32 bits would accept it)
+				bad := sum(data) ^ 0x5A5A
+				if cks == 2 && len(blocks)%2 == 0 {
+					bad = sum(data) ^ (0x5A5A << 40)
+				}
+				p, nb := container.BuildNoneBlock(data, cks, bad)
 				container.WriteFrame(w, p, nb)
 			}
 			blocks = append(blocks, nil)
